@@ -6,6 +6,11 @@ BASE = json.load(open("/root/.vp/BASELINE.json"))["cmd"] if os.path.exists("/roo
     "cd /repo && /venv/bin/python -m pytest -ra -q -p no:cacheprovider --timeout=900 --continue-on-collection-errors"
 
 CLAIMED = {
+ "C13": dict(
+    technique="static analysis: derived-state completeness rules over op's mutators (sibling-arm agreement of the insert-or-create idiom, delete-inside-loop, reaching definitions for loop variables), fresh-return rule for accessors, effect ordering in delconstraint",
+    text="Static, exhaustive over the methods of modeling.op that edit objective/_inequalities/_equalities: every insert-or-create site of the derived table _variables has both arms, touches the list matching the constraint type and creates well-formed entries; entries are deleted per variable inside the loop and only when 'o','i','e' are all empty; an objective change clears 'o' on survivors and sets it on the new objective's variables; accessors return fresh lists; delconstraint removes from the source list first, under try/except ValueError; no loop variable is read after its loop. It does NOT decide equality of solve results with a freshly built op.",
+    note="Trusted: CPython ast; variables()/type() of constraints report what the constraint contains (C11).",
+    ref="DESIGN.md section 3, C13"),
  "C09": dict(
     technique="static analysis: interprocedural effect/alias analysis (flow-insensitive may-alias refined by reaching definitions at each sink) with an effect table for the kernels and callback contracts; scope analysis of the options binding; validation-before-loop and loop-shape rules",
     text="Static, exhaustive over the ten entry points and the kkt_* factories: options is a local bound from kwargs before any use and forwarded to every wrapped entry point (op.solve forwards **kwargs); the option values are read once and validated with ValueError before the main loop with agreeing defaults; the main loops are bounded by maxiters; no in-place write (item/attribute store, augmented assignment, mutating method, kernel/callback output position) can reach an object that may share storage with an argument, the options dictionaries or F()'s results; no global/nonlocal writes and no module-level mutable state besides the options dictionaries. Bit-identical repeatability and thread independence are not decided as such - the absence of shared mutable state in the Python layer is.",
